@@ -164,8 +164,7 @@ def order_flow(ctx, rule='A15'):
         cfg = build_cfg(f2)
         nodes = guards.call_nodes(cfg, 'get_valid_idx_combinations')
         guards.check_guarded(ctx, rule, f2, nodes,
-                             lambda atom, truth: truth is True and isinstance(atom, ast.Compare) and
-                             norm(atom) == 'constraint is not None', set(), 'filter-only-with-constraint',
+                             guards.none_fact('constraint', False), set(), 'filter-only-with-constraint',
                              'the filter is applied exactly when a constraint type was given')
     perm = [s for s in walk_fn(fn) if isinstance(s, ast.Assign) and norm(s.targets[0]) == 'is_all_permanent']
     ok = bool(perm) and 'Diag.CONFIRMED.value' in norm(perm[0].value) and norm(perm[0].value).startswith('all(')
